@@ -265,12 +265,13 @@ class Ref:
                     outs.append(o)
                 env["v"][addr] = (carry, np.stack([np.asarray(o) for o in outs]))
             elif kind == "cond":
-                _, _, pred, ft, ff, aex = st
+                pred, ft, ff, aex = st[2:6]
                 a = [ev(e, env, np) for e in aex]
+                ckw = {k: ev(e, env, np) for k, e in st[6].items()} if len(st) > 6 else {}
                 pv = bool(ev(pred, env, np))
                 if self.preds is not None:
                     self.preds.append((path + (addr,), idx, pv))
-                env["v"][addr] = self.run(ft if pv else ff, a, {}, site, path + (addr,), idx)
+                env["v"][addr] = self.run(ft if pv else ff, a, ckw, site, path + (addr,), idx)
             else:
                 raise ValueError(st)
         return ev(fn["ret"], env, np)
